@@ -5,6 +5,7 @@ open Aqv Aqv.Proto Aqv.FeedSpec
 /-
   Model driver for C19.  Case lines:
     tr <ev>*                       observed history of one scheduled run of the real event.Feed;  go output: ok | reject <clause>
+    mx <ev>*                       observed history of one round on the real event.TypeMux;      go output: ok | reject <clause>
     st live=<ids> sc=<ids> ib=<ids>   internal state at quiescence (overlay accessor);           go output: ok | reject state
   The driver judges the line with the executable Spec (`Aqv.FeedSpec.judge`) — the judgement never depends on which
   schedule produced the history, and two runs are never compared.
@@ -28,6 +29,23 @@ def parseEv (t : String) : Option GEv :=
     | "rv", [a, b] => match parseNat? a, parseNat? b with | some x, some y => some (.rv x y) | _, _ => none
     | _, _ => none
 
+def parseMEv (t : String) : Option MEv :=
+  if t == "hang" then some .hang
+  else if t == "Tb" then some .tb
+  else if t == "Te" then some .te
+  else
+    let tag := String.ofList (t.toList.take 2)
+    let rest := String.ofList (t.toList.drop 2)
+    match tag, rest.splitOn ":" with
+    | "Sb", [a] => (parseNat? a).map .sb
+    | "Ub", [a] => (parseNat? a).map .ub
+    | "Ue", [a] => (parseNat? a).map .ue
+    | "Se", [a, b] => match parseNat? a, parseNat? b with | some x, some y => some (.se x y) | _, _ => none
+    | "Pb", [a, b] => match parseNat? a, parseNat? b with | some x, some y => some (.pb x y) | _, _ => none
+    | "Pe", [a, b] => match parseNat? a, parseNat? b with | some x, some y => some (.pe x y) | _, _ => none
+    | "Rv", [a, b] => match parseNat? a, parseNat? b with | some x, some y => some (.rv x y) | _, _ => none
+    | _, _ => none
+
 def parseIds (s : String) : Option (List Nat) :=
   match s.splitOn "=" with
   | [_, v] => if v == "" then some [] else (v.splitOn ",").mapM parseNat?
@@ -43,6 +61,13 @@ def handle (l : String) : String :=
       -- a history the Spec rejects is a violation whatever the Go-side judge said; if the Spec accepts it and the
       -- Go-side judge did not, the two judges differ (reported as broken correspondence)
       match judge es.toArray with
+      | none => verdict "ok" go true ""
+      | some why => "reject " ++ why ++ "\tspec-reject:" ++ why
+  | "mx" :: evs =>
+    match evs.mapM parseMEv with
+    | none => "bad-op\tagree"
+    | some es =>
+      match judgeMux es.toArray with
       | none => verdict "ok" go true ""
       | some why => "reject " ++ why ++ "\tspec-reject:" ++ why
   | ["st", a, b, c] =>
